@@ -394,8 +394,10 @@ def _inner_reads(cls, kinds, skip_first_iter=True):
 def _class_comp_reads_member_312(tree):
     """KF-D72: (3.12+ host) a list / set / dict comprehension written directly in a class body reads, outside its first
     iterable, a name that the class body binds"""
-    if sys.version_info < (3, 12):
-        return False
+    return sys.version_info >= (3, 12) and class_comp_reads_member(tree)
+
+
+def class_comp_reads_member(tree):
     for n in ast.walk(tree):
         if isinstance(n, ast.ClassDef):
             if _bound_here(n.body) & _inner_reads(n, (ast.ListComp, ast.SetComp, ast.DictComp)):
